@@ -42,7 +42,8 @@ structure St (F Mat Vec : Type) where
   tag : Tag F
   /-- `_orb_frame`: set once in `__new__`, never updated -/
   orbFrame : F
-  /-- `orb.frame`: the frame the private state copy is *currently* expressed in -/
+  /-- `orb.frame`: the frame the private state copy is expressed in (what `Cov.copy` reads; the
+  setter never changes it any more, so it stays equal to `orbFrame` from `St.new` on) -/
   orbCur : F
   /-- `orb` (cartesian coordinates of the private copy) -/
   orb : Vec
@@ -70,23 +71,9 @@ def m2 (E : Env F Mat Vec) (s : St F Mat Vec) (t : Tag F) : Mat :=
 /-- `M = m2 @ m1` -/
 def hopMat (E : Env F Mat Vec) (s : St F Mat Vec) (t : Tag F) : Mat := E.mul (m2 E s t) (m1 E s)
 
-/-- `self.orb.frame = frame` on the private copy (it has no covariance of its own):
-`StateVector.frame` setter → `Frame.transform` when the frame differs -/
-def reframeOrb (E : Env F Mat Vec) (s : St F Mat Vec) (f : F) : St F Mat Vec :=
-  if f ≠ s.orbCur then { s with orbCur := f, orb := E.apply (E.conv s.orbCur f) s.orb } else s
-
-/-- `Cov.frame` setter, as the code is -/
+/-- `Cov.frame` setter, as the code is (since d229088 the private copy is never re-framed: it stays
+in `_orb_frame`, the frame every conversion is routed through) -/
 def setFrame (E : Env F Mat Vec) (s : St F Mat Vec) (t : Tag F) : St F Mat Vec :=
-  if t = s.tag then s
-  else
-    let M := hopMat E s t
-    let s' : St F Mat Vec := { s with tag := t, mat := E.mul (E.mul M s.mat) (E.tr M) }
-    match t with
-    | .loc _ => s'
-    | .frame f => reframeOrb E s' f
-
-/-- `Cov.frame` setter with the proposed repair: the private copy is left in `_orb_frame` -/
-def setFrameFixed (E : Env F Mat Vec) (s : St F Mat Vec) (t : Tag F) : St F Mat Vec :=
   if t = s.tag then s
   else
     let M := hopMat E s t
@@ -96,8 +83,29 @@ def setFrameFixed (E : Env F Mat Vec) (s : St F Mat Vec) (t : Tag F) : St F Mat 
 def run (E : Env F Mat Vec) (s : St F Mat Vec) (ts : List (Tag F)) : St F Mat Vec :=
   ts.foldl (setFrame E) s
 
-def runFixed (E : Env F Mat Vec) (s : St F Mat Vec) (ts : List (Tag F)) : St F Mat Vec :=
-  ts.foldl (setFrameFixed E) s
+/-! ### History: the setter before d229088
+
+After a hop to a frame the old setter also executed `self.orb.frame = frame`: the private copy was
+re-framed while `_orb_frame` kept naming the original frame.  Kept only so that Witness/C14.lean
+can show, kernel-checked, what the regression guarded by the oracle family
+`path-dependent:local-after-reframe` looks like.  Nothing else refers to these definitions. -/
+
+/-- `self.orb.frame = frame` on the private copy (`StateVector.frame` setter → `Frame.transform`) -/
+def reframeOrb (E : Env F Mat Vec) (s : St F Mat Vec) (f : F) : St F Mat Vec :=
+  if f ≠ s.orbCur then { s with orbCur := f, orb := E.apply (E.conv s.orbCur f) s.orb } else s
+
+/-- the `Cov.frame` setter as it was before d229088 -/
+def setFrameOld (E : Env F Mat Vec) (s : St F Mat Vec) (t : Tag F) : St F Mat Vec :=
+  if t = s.tag then s
+  else
+    let M := hopMat E s t
+    let s' : St F Mat Vec := { s with tag := t, mat := E.mul (E.mul M s.mat) (E.tr M) }
+    match t with
+    | .loc _ => s'
+    | .frame f => reframeOrb E s' f
+
+def runOld (E : Env F Mat Vec) (s : St F Mat Vec) (ts : List (Tag F)) : St F Mat Vec :=
+  ts.foldl (setFrameOld E) s
 
 /-- `Cov.copy()`: `Cov(self.orb, self.base, frame=self.frame)` — `_orb_frame` of the copy is the
 frame the private copy is expressed in *now* -/
